@@ -258,3 +258,18 @@ Proof.
   split; [exact N|]. intros fuel' tb name ix r s2 Hb' E'.
   exact (proj1 (run_no_oof V O alg (with_faults W fp) Hs Hf Hi fuel' s1 tb name ix r s2 I Hb' E')).
 Qed.
+
+Lemma L_C09_sound_slices :
+  forall (V : Type) (O : vops V) (eqv : V -> V -> Prop), vlaws O eqv ->
+  forall (alg : algorithm) (W : xworld V) (sfn : string -> list V -> index -> V),
+  world_ok O eqv alg W sfn ->
+  forall fuel calls0 rs os s1 fuel' tb name ixs vs s2,
+    run_all O alg (compile alg) W fuel (init_state alg W calls0) rs = (os, s1) ->
+    Forall (fun o => o <> OutOfFuel) os ->
+    run_multi O alg (compile alg) W fuel' s1 tb name ixs = (Ok vs, s2) ->
+    Forall2 (fun ix v => forall f w, interp O alg (SW O W sfn) f (KN name) ix = Some w -> eqv (den O v) w) ixs vs.
+Proof.
+  intros V O eqv L alg W sfn WO fuel calls0 rs os s1 fuel' tb name ixs vs s2 E NO E2.
+  destruct (@schedule_sound V O eqv L alg W sfn WO fuel calls0 rs os s1 E NO) as (I1 & _ & _).
+  exact (proj2 (proj2 (@multi_request_sound V O eqv L alg W sfn WO fuel' tb name ixs s1 vs s2 I1 E2))).
+Qed.
